@@ -172,6 +172,12 @@ pub fn generate(rng: &mut Rng, plan: &mut Plan, _index: u64) {
         plan.knobs.faults.eintr = Some((1 + rng.below(4) as u32, 1 + rng.below(3) as u32, mask));
         plan.knobs.batch = "faulty".into();
     }
+    // somebody else in the process (a SIGCHLD handler, another library) reaps children
+    if rng.chance(1, 6) {
+        plan.knobs.faults.foreign_reap = true;
+        plan.knobs.env_reaps = 1 + rng.below(2) as u32;
+        plan.knobs.batch = "faulty".into();
+    }
     // a parent that runs with some standard descriptors closed
     if rng.chance(1, 8) {
         plan.parent.closed_std = 1 + rng.below(7) as u8;
